@@ -94,6 +94,11 @@ impl Plugin for ClientEventPlugin {
                     builder.add_write_by_id(event.events_id());
                 }
             }),
+            FilteredResourcesParamBuilder::new(|builder| {
+                for event in event_registry.iter_all_client() {
+                    builder.add_read_by_id(event.reader_id());
+                }
+            }),
             ParamBuilder,
         )
             .build_state(app.world_mut())
@@ -223,6 +228,7 @@ fn trigger(
 fn resend_locally(
     mut client_events: FilteredResourcesMut,
     mut events: FilteredResourcesMut,
+    readers: FilteredResources,
     event_registry: Res<RemoteEventRegistry>,
 ) {
     for event in event_registry.iter_all_client() {
@@ -232,9 +238,12 @@ fn resend_locally(
         let events = events
             .get_mut_by_id(event.events_id())
             .expect("events resource should be accessible");
+        let reader = readers
+            .get_by_id(event.reader_id())
+            .expect("event reader resource should be accessible");
 
         // SAFETY: passed pointers were obtained using this event data.
-        unsafe { event.resend_locally(client_events.into_inner(), events.into_inner()) };
+        unsafe { event.resend_locally(client_events.into_inner(), events.into_inner(), &reader) };
     }
 }
 
